@@ -413,3 +413,30 @@ PROPS["C08"] = {'assumptions': ['the classad library (github.com/PelicanPlatform
              'or evaluated by the harness (ParseFloat, %q) and compared on every run',
              'the stream layer is a frame source for this layer (frames as ReadFrame hands them over); what a frame read under the wrong crypto state looks '
              'like is C02/C12']}
+
+# ---- additions of the coverage round (C08 C09 C13 C14): appended so that the entries above stay as merged ----
+PROPS["C13"]["level_text"] += (
+    " Added: total_framing_noend / linear_framing_noend / oversize_header_refused (stream.ReceiveFrame and its callers GetSecret / GetFile: every wire byte "
+    "string; a header above MaxMessageSize is refused with nothing allocated; GetFile writes no more than the wire delivered), handshake_ads_capped / "
+    "handshake_ads_bounded (decide over the regenerated table CedarGen.FactsAdRead of ALL ClassAd-reader calls in security/ and ccb/: each is "
+    "GetClassAdWithMaxSize with a constant cap in 1..64 KiB), total_linear_subprotocols (kerberos request blob, optional raw fields of the token exchange), "
+    "cap_exceeded_fails (a capped read FAILS once the cap is exceeded: plaintext, encrypted, ClassAd budget). Engine: ReceiveFrame / GetSecret / GetFile "
+    "under hostile headers (child process above 64 MiB), real handshakes in both roles and the CCB readers handed 10-400x oversized well-formed ads at "
+    "each ad-reading step (must fail, consume <= cap + 64 KiB read-ahead allowance + one frame, allocate <= 16 cap + 4 MiB), sub-protocol readers "
+    "through hooks with the length catalogue per length field, nested / deep / wide ClassAd values incl. the error path (stack-limited child), "
+    "allocation of the text parsers measured.")
+PROPS["C14"]["level_text"] += (
+    " Added: double_layout / double_frac_range / double_precision about the model's encodeDbl / decodeDbl (a double as the integer pair (fraction scaled "
+    "by 2^31-1, exponent); precision 2^-29 relative for every fraction within 1 of the exact truncated product - float rounding is the declared trusted "
+    "part and is measured with exact integers on every double the engine sends), strbytes_layout (PutStringBytes incl. its >= one-frame branch has "
+    "PutString's wire bytes). Engine: Code* entry points in both directions, PutFloat / GetFloat / CodeFloat, GetRemainingBytes on unfinished "
+    "messages, PutStringBytes of 1 MiB +- and 2 MiB.")
+PROPS["C08"]["level_text"] += (
+    " Added (engine adwire): attribute names compared with the sender's exact spelling; GetClassAdWithMaxSize (cap the ad fits under) compared with "
+    "GetClassAd on every honest ad; type names with blanks / non-ASCII / 41-128 characters; the raw-text oracle reads library-rendered text back "
+    "(order and spacing free).")
+PROPS["C09"]["level_text"] += (
+    " Added: types_independent_of_scope_private / scope_types_legacy_fails (model PrivacyScope: the evaluated type trailer does not depend on private "
+    "attributes of the ad's PARENT / TARGET scopes - defect found and fixed, a1f9ffc). Engine: several ads through ONE Message with crypto-mode "
+    "changes in between; type expressions over TARGET / PARENT scopes.")
+
